@@ -11,7 +11,7 @@ def run(tier, replay=None):
     c.rule = ("one scenario = one TLC-generated behaviour of RepCache (metadata root same/separate/disabled x sequence of "
               "Start(write) / Damage(rep, truncated|garbage|empty|plainjson) / Remove(rep) over two representations) replayed on "
               "real directories with one real server instance per Start; every instance answers a fixed pool (MPDs of the 3 types "
-              "at 3 instants, init, video+audio media over a loop + wrap, $Time$ media, far-from-epoch numbers, text/thumbnails, "
+              "at 2-3 instants, ClearKey eccp_cbcs/eccp_cenc MPD+init+media, init, video+audio media over a loop + wrap, $Time$ media, far-from-epoch numbers, text/thumbnails, "
               "asset listing) and is compared per asset with the scanning server of the same VoD root; the two model "
               "representations are mapped to 8 rotating pairs of real representations (bundled / generated / inadmissible "
               "assets); distinct = distinct (behaviour, mapping)")
@@ -20,7 +20,10 @@ def run(tier, replay=None):
                      "a damaged or partial metadata set may leave the asset out or be repaired by scanning (both readings accepted); "
                      "a complete set, no set, write mode and a disabled root must give the scanning server's answers",
                      "C15.idem is demanded for write-mode starts with no file action in between",
-                     "C15.contig is decided on the first tfdt and the summed sample durations of the served segments 0..N+1",
+                     "C15.contig is decided (a) on the first tfdt and the summed sample durations of the served segments 0..N+1 (not for "
+                     "the video of g_gap, whose first segment's samples legally end before the second segment starts) and (b) on the "
+                     "SegmentTimeline the server declares: every declared entry is served (200) with tfdt = declared t, entries contiguous "
+                     "(scanning server and read-mode instances)",
                      "the reference is the scanning server (no metadata root) of the same VoD root, as the property defines it; the "
                      "$Time$ values of audio requests are read from its MPD (inputs only)",
                      "admissibility ground truth is by construction of the generated layouts (loop ticks * 1000 mod timescale; "
@@ -40,7 +43,7 @@ def run(tier, replay=None):
         for b in beh:
             f.write(json.dumps(b) + "\n")
     drive = vlib.build_harness(cmd="c15")
-    n, workers = (300, 6) if quick else (0, 8)
+    n, workers = (250, 6) if quick else (0, 8)
     st = vlib.run_driver(drive, ["-out", c.work / "c15", "-gen", genf, "-work", c.work / "run", "-seed", c.seed,
                                  "-n", n, "-workers", workers], timeout=3000)
     # vacuity guards (machinery, never a verdict)
@@ -49,14 +52,14 @@ def run(tier, replay=None):
     for k in ("scan", "absent"):
         if st["outcomes"].get(k, 0) == 0:
             raise MachineryError(f"vacuity: no asset outcome '{k}' observed: {st['outcomes']}")
-    if st["cache_read_instances"] == 0 or st["full_contig_windows"] == 0:
+    if st["cache_read_instances"] == 0 or st["full_contig_windows"] == 0 or st["full_declared_timelines"] == 0:
         raise MachineryError(f"vacuity: no read-mode instance / no complete contiguity window: {st}")
     traces = st["traces"]
 
     def one(tp):
         return tp, c.validate_trace("RepCache_Trace", tp, timeout=3000, heap="4g")
 
-    seen = {"ref": 0, "hdr": 0, "damage": 0, "remove": 0, "start": 0, "asset": 0, "tl": 0, "files": 0}
+    seen = {"ref": 0, "hdr": 0, "damage": 0, "remove": 0, "start": 0, "asset": 0, "tl": 0, "mtl": 0, "files": 0}
     idem_compared = 0
     with ThreadPoolExecutor(max_workers=len(traces)) as ex:
         results = list(ex.map(one, traces))
@@ -84,7 +87,7 @@ def run(tier, replay=None):
             except json.JSONDecodeError:
                 d = {}
             if isinstance(d, dict):
-                for k in ("asset", "outcome", "root", "write", "adm", "corrupt", "kinds", "rep"):
+                for k in ("asset", "outcome", "root", "write", "adm", "corrupt", "kinds", "rep", "kind", "first_bad"):
                     if k in d:
                         f[k] = d[k]
             f.pop("cls", None)
@@ -102,6 +105,6 @@ def run(tier, replay=None):
     c.extra.update({"replayed_tlc_behaviours": st["scenarios"], "tlc_behaviours_available": st["behaviours_available"],
                     "server_instances": st["instances"], "read_mode_instances_with_root": st["cache_read_instances"],
                     "requests": st["requests"], "pool_per_instance": st["pool"], "asset_outcomes": st["outcomes"],
-                    "complete_contiguity_windows": st["full_contig_windows"], "idem_comparisons": idem_compared,
+                    "complete_contiguity_windows": st["full_contig_windows"], "complete_declared_timelines": st["full_declared_timelines"], "idem_comparisons": idem_compared,
                     "events_by_type": seen, "damage_on_unusable_file": st.get("damage_on_unusable_file", 0), "assets": st["assets"], "driver_wall_s": st["_wall_s"]})
     return c.finish()
